@@ -29,18 +29,23 @@ for log in logs:
 
 for (pid, n), r in sorted(res.items()):
     src = '/tmp/wt-%s/out' % pid
+    k = n
+    if n >= 3:
+        # second round of sub-agents: /tmp/w2-<id>/out/mutant{1,2} become <id>-3 and <id>-4
+        src = '/tmp/w2-%s/out' % pid
+        k = n - 2
     dst = '/verif/seeded/%s-%d' % (pid, n)
-    if not os.path.exists(src + '/mutant%d.diff' % n):
+    if not os.path.exists(src + '/mutant%d.diff' % k):
         src = dst  # already collected earlier
         if not os.path.exists(dst + '/patch.diff'):
             continue
     os.makedirs(dst, exist_ok=True)
     if src != dst and not os.path.exists(dst + '/patch.diff'):
-        shutil.copy(src + '/mutant%d.diff' % n, dst + '/patch.diff')
-        shutil.copy(src + '/demo%d.rs' % n, dst + '/demo.rs')
+        shutil.copy(src + '/mutant%d.diff' % k, dst + '/patch.diff')
+        shutil.copy(src + '/demo%d.rs' % k, dst + '/demo.rs')
     meta = {}
     try:
-        meta = json.load(open(src + ('/meta%d.json' % n if src != dst else '/meta.json')))
+        meta = json.load(open(src + ('/meta%d.json' % k if src != dst else '/meta.json')))
     except Exception as e:
         meta = {'note': 'agent meta unreadable: %s' % e}
     if os.path.exists(dst + '/meta.json'):
